@@ -1125,7 +1125,10 @@ func runC16(c *core.Ctx) error {
 				}}}
 			}
 			var matches, calls []string
-			mk().WalkMatching(root, s, func(p traversal.Progress, n datamodel.Node) error { matches = append(matches, p.Path.String()); return nil })
+			mk().WalkMatching(root, s, func(p traversal.Progress, n datamodel.Node) error {
+				matches = append(matches, p.Path.String())
+				return nil
+			})
 			res, err := mk().WalkTransforming(root, s, func(p traversal.Progress, m datamodel.Node) (datamodel.Node, error) {
 				calls = append(calls, p.Path.String())
 				return m, nil
@@ -1169,7 +1172,9 @@ func runC16(c *core.Ctx) error {
 	// directed shapes for the model correspondence (model == code on each; what they show is in Props/C16walk.lean):
 	{
 		mt := core.Map(core.KV{K: []byte("."), V: core.Map()})
-		all := func(x core.Val) core.Val { return core.Map(core.KV{K: []byte("a"), V: core.Map(core.KV{K: []byte(">"), V: x})}) }
+		all := func(x core.Val) core.Val {
+			return core.Map(core.KV{K: []byte("a"), V: core.Map(core.KV{K: []byte(">"), V: x})})
+		}
 		fields := func(kvs ...core.KV) core.Val {
 			return core.Map(core.KV{K: []byte("f"), V: core.Map(core.KV{K: []byte("f>"), V: core.Map(kvs...)})})
 		}
